@@ -9,7 +9,8 @@ D=/verif/seeded/$NAME
 IDS=${@:-$(python3 -c "import json;print(json.load(open('$D/meta.json'))['property'])")}
 if ! git -C /repo diff --quiet; then echo "/repo has uncommitted changes - refusing"; exit 2; fi
 git -C /repo apply $D/patch.diff || { echo "patch does not apply"; exit 2; }
-trap 'git -C /repo checkout -- . ; git -C /repo clean -fdq -- ciphercore-base/tests 2>/dev/null' EXIT
+# evidence files written while the seed is applied are not evidence about the tree: restore the committed ones
+trap 'git -C /repo checkout -- . ; git -C /repo clean -fdq -- ciphercore-base/tests 2>/dev/null; git -C /verif checkout -- evidence' EXIT
 OUT=$D/result-$TIER.txt
 echo "seed $NAME on /repo $(git -C /repo rev-parse --short HEAD), tier $TIER, $(date -u +%FT%TZ)" >> $OUT
 for id in $IDS; do
